@@ -2,6 +2,7 @@ import QbeeModel.Model.Util
 import QbeeModel.Model.Print
 import QbeeModel.Model.NumFmt
 import QbeeModel.Model.Data
+import QbeeModel.Model.Input
 /-
   Line-protocol driver for the executable models.  One request per line, one
   answer per line.  Unknown or malformed requests answer `bad-op`; the models
@@ -81,6 +82,46 @@ def runReads (data : List (List Data.DItem)) : Data.Cur → List String → Opti
       let rest ← runReads data (Data.restore i) r
       pure ("ok" :: rest)
   | _, _ => none
+
+def encCell : Input.Cell → String
+  | .int ty v => s!"I{ty}:{v}"
+  | .flt ty tok => s!"F{ty}:" ++ encStr tok
+  | .str s => "S" ++ encStr s
+
+def encCalls (cs : List Input.Call) : String :=
+  " ".intercalate (cs.map fun
+    | .print s => "P" ++ encStr s
+    | .input => "IN")
+
+def takeNats : Nat → List String → Option (List Nat × List String)
+  | 0, r => some ([], r)
+  | n + 1, t :: r => do let v ← t.toNat?; let (vs, r') ← takeNats n r; pure (v :: vs, r')
+  | _, _ => none
+
+def takeStrs : Nat → List String → Option (List Str × List String)
+  | 0, r => some ([], r)
+  | n + 1, t :: r => do let v ← decStr t; let (vs, r') ← takeStrs n r; pure (v :: vs, r')
+  | _, _ => none
+
+def handleInput (r : List String) : Option String := do
+  match r with
+  | q :: p :: n :: rest =>
+    let p ← decStr p
+    let n ← n.toNat?
+    let (tys, rest) ← takeNats n rest
+    match rest with
+    | k :: rest =>
+      let k ← k.toNat?
+      let (lines, rest) ← takeStrs k rest
+      if !rest.isEmpty || (q ≠ "0" && q ≠ "1") then none else
+      let req : Input.Req := { prompt := p, question := q = "1", tys := tys }
+      pure <| match Input.run req lines with
+        | .done c pushed left => s!"done {left.length} | " ++ encCalls c ++ " | " ++ " ".intercalate (pushed.map encCell)
+        | .starved c left => s!"starved {left.length} | " ++ encCalls c
+        | .gray _ => "gray"
+        | .devErr c => "deverr | " ++ encCalls c
+    | _ => none
+  | _ => none
 
 def handle (toks : List String) : String :=
   match toks with
@@ -164,6 +205,7 @@ def handle (toks : List String) : String :=
         | none => "bad-op"
       | none => "bad-op"
     | none => "bad-op"
+  | "input" :: r => (handleInput r).getD "bad-op"
   | _ => "bad-op"
 
 end Drv
